@@ -480,9 +480,12 @@ static void uv__signal_event(uv_loop_t* loop,
         handle->signal_cb(handle, handle->signum);
 
         /* Only a signal the handle was watching ends a one-shot watch; a stale
-         * message from before a restart on another signal must not stop it.
+         * message from before a restart on another signal must not stop it,
+         * nor must this message when the callback has just started the handle
+         * on another signal.
          */
-        if (handle->flags & UV_SIGNAL_ONE_SHOT)
+        if ((handle->flags & UV_SIGNAL_ONE_SHOT) &&
+            handle->signum == msg->signum)
           uv__signal_stop(handle);
       }
 
